@@ -312,6 +312,16 @@ func evHandler(c map[string]any) map[string]any {
 		}
 		res["also"] = m
 	}
+	if t2, ok := c["text2"].(string); ok {
+		c2 := map[string]any{}
+		for k, v := range c {
+			c2[k] = v
+		}
+		delete(c2, "text2")
+		delete(c2, "also")
+		c2["text"] = t2
+		res["obs2"] = runOne(func(cc map[string]any) map[string]any { r, _, _ := evRun(cc, nil); return r }, c2)
+	}
 	if c["want_diags"] == true {
 		res["diags"] = diagTexts(diags)
 	}
